@@ -769,7 +769,12 @@ func (ex *executor) frameObligations(st *state, env *specEnv, sfx string, pos to
 			ex.addObligation(st, "frame", "class "+shortFnKey(name)+sfx, Implies(st.pc, g), pos)
 		}
 	}
-	ex.addObligation(st, "frame", "assigns"+sfx, Implies(st.pc, And(goals...)), pos)
+	fo := ex.addObligation(st, "frame", "assigns"+sfx, Implies(st.pc, And(goals...)), pos)
+	if len(goals) > 1 {
+		for _, g := range goals {
+			fo.Parts = append(fo.Parts, Implies(st.pc, g))
+		}
+	}
 }
 
 // ---------- go statements ----------
@@ -1071,7 +1076,8 @@ func (ex *executor) containerIntrinsic(st *state, key string, cc *ssa.CallCommon
 			ex.assume(st, Eq(nv.C[2], BVBin("bvadd", old.C[2], one)))
 			// appended in place or reallocated into a fresh array
 			nr := ex.newRef(st)
-			ex.assume(st, Or(And(Eq(nv.C[0], old.C[0]), Eq(nv.C[1], old.C[1])), Eq(nv.C[0], nr)))
+			ex.assume(st, Or(And(Eq(nv.C[0], old.C[0]), Eq(nv.C[1], old.C[1]), Eq(nv.C[3], old.C[3]), BVCmp("bvslt", old.C[2], old.C[3])),
+				And(Eq(nv.C[0], nr), Eq(nv.C[1], BVI(0, 64)), BVCmp("bvsle", nv.C[2], nv.C[3]))))
 		case "container/heap.Pop", "container/heap.Remove":
 			if ex.safety {
 				ex.addObligation(st, "bounds", "heap.Pop on a non-empty heap "+ex.srcText(cc.Pos(), ""), Implies(st.pc, BVCmp("bvsgt", old.C[2], BVI(0, 64))), cc.Pos())
